@@ -283,12 +283,36 @@ def upstream_observer_case(item):
         obs = {'dump_to_path': lambda: DF.dump_to_path(opath), 'dump_to_zip': lambda: DF.dump_to_zip(os.path.join(opath, 'o.zip')),
                'stream': lambda: DF.stream(os.path.join(opath, 's.ndjson')), 'checkpoint': lambda: DF.checkpoint('cp', checkpoint_path=opath),
                'finalizer': lambda: DF.finalizer(lambda: fired.append(1))}[okind]()
-        with contextlib.redirect_stdout(io.StringIO()), contextlib.redirect_stderr(io.StringIO()):
-            up = Flow(src, obs).datastream()
-            sel = item.get('select')
-            lim = item.get('limit')
-            res, dp, _ = Flow(DF.load((up.dp.descriptor, up.res_iter), strip=False, **({} if sel is None else dict(resources=sel)),
-                                      **({} if not lim else dict(limit_rows=lim)))).results()
+        sel = item.get('select')
+        lim = item.get('limit')
+        if item.get('inchain'):
+            # the consumer is a LATER STEP OF THE SAME CHAIN that stops reading every resource early (SubFlow.tla, ObserverDrains)
+            import itertools
+
+            def stop_islice(rows):
+                yield from itertools.islice(rows, lim)
+
+            def stop_break(rows):
+                n_ = 0
+                for row in rows:
+                    if n_ >= lim:
+                        break
+                    n_ += 1
+                    yield row
+
+            def stop_return(rows):
+                for n_, row in enumerate(rows):
+                    yield row
+                    if n_ + 1 >= lim:
+                        return
+            stopper = {'islice': stop_islice, 'break': stop_break, 'return': stop_return}[item['inchain']]
+            with contextlib.redirect_stdout(io.StringIO()), contextlib.redirect_stderr(io.StringIO()):
+                res, dp, _ = Flow(src, obs, stopper).results()
+        else:
+            with contextlib.redirect_stdout(io.StringIO()), contextlib.redirect_stderr(io.StringIO()):
+                up = Flow(src, obs).datastream()
+                res, dp, _ = Flow(DF.load((up.dp.descriptor, up.res_iter), strip=False, **({} if sel is None else dict(resources=sel)),
+                                          **({} if not lim else dict(limit_rows=lim)))).results()
         if lim:
             # the consumer reads only the first rows of every resource: the observer upstream still saw - and persisted - all of them
             if res != [rows[:lim] for rows in srcs]:
@@ -361,13 +385,18 @@ def model_subflow(rep):
     for sel in ('{1, 2, 3}', '{2}', '{1, 3}', '{}'):
         for fe in ('FALSE', 'TRUE'):
             cfg = tlc.write_cfg(os.path.join(wd, 'ok.cfg'), spec='Spec', invariants=invs, properties=['Termination'],
-                                constants={'N': 3, 'R': 2, 'Selected': sel, 'FinalPullDone': 'TRUE', 'DrainSkipped': 'TRUE', 'FailsAtEnd': fe, 'Limit': 1 if fe == 'FALSE' else 0, 'DrainLimited': 'TRUE'})
+                                constants={'N': 3, 'R': 2, 'Selected': sel, 'FinalPullDone': 'TRUE', 'DrainSkipped': 'TRUE', 'FailsAtEnd': fe, 'Limit': 1 if fe == 'FALSE' else 0, 'DrainLimited': 'TRUE', 'ObserverDrains': 'FALSE'})
             res = tlc.run_tlc('SubFlow', cfg, allow_violation=False)
             rep.add_tlc(res, 'SubFlow N=3 R=2 Selected=%s FailsAtEnd=%s: the repaired consumer' % (sel, fe))
+            # the observer-side repair: whatever the consumer leaves unread (skipped resources, limited resources), the observer finishes
+            cfg = tlc.write_cfg(os.path.join(wd, 'od.cfg'), spec='Spec', invariants=invs, properties=['Termination'],
+                                constants={'N': 3, 'R': 2, 'Selected': sel, 'FinalPullDone': 'TRUE', 'DrainSkipped': 'FALSE', 'FailsAtEnd': fe, 'Limit': 1, 'DrainLimited': 'FALSE', 'ObserverDrains': 'TRUE'})
+            res = tlc.run_tlc('SubFlow', cfg, allow_violation=False)
+            rep.add_tlc(res, 'SubFlow N=3 R=2 Selected=%s FailsAtEnd=%s: a consumer that drains nothing, an observer that finishes what it writes' % (sel, fe))
     for fp, dr, sel, fe, want, lim, dl in (('FALSE', 'TRUE', '{1, 2, 3}', 'FALSE', 'UpstreamCompletes', 0, 'TRUE'), ('FALSE', 'TRUE', '{1, 2, 3}', 'TRUE', 'FailureSurfaces', 0, 'TRUE'),
                                            ('TRUE', 'FALSE', '{2}', 'FALSE', 'ObserverSawAll', 0, 'TRUE'), ('TRUE', 'TRUE', '{1, 2, 3}', 'FALSE', 'ObserverSawAll', 1, 'FALSE')):
         cfg = tlc.write_cfg(os.path.join(wd, 'pin.cfg'), spec='Spec', invariants=invs,
-                            constants={'N': 3, 'R': 2, 'Selected': sel, 'FinalPullDone': fp, 'DrainSkipped': dr, 'FailsAtEnd': fe, 'Limit': lim, 'DrainLimited': dl})
+                            constants={'N': 3, 'R': 2, 'Selected': sel, 'FinalPullDone': fp, 'DrainSkipped': dr, 'FailsAtEnd': fe, 'Limit': lim, 'DrainLimited': dl, 'ObserverDrains': 'FALSE'})
         r0 = tlc.run_tlc('SubFlow', cfg)
         if r0.violated != want:
             raise tlc.MachineryError('non-vacuity: SubFlow FinalPullDone=%s DrainSkipped=%s must violate %s (got %s)' % (fp, dr, want, r0.violated))
@@ -588,6 +617,8 @@ def run():
     model_subflow(rep)
     uitems = [dict(upstream=True, obs=o, shape=sh) for o in ('dump_to_path', 'dump_to_zip', 'stream', 'checkpoint', 'finalizer') for sh in ([2], [0], [2, 0, 3])]
     uitems += [dict(upstream=True, obs=o, shape=[3, 0, 2], limit=1) for o in ('dump_to_path', 'dump_to_zip', 'stream', 'checkpoint', 'finalizer')]
+    uitems += [dict(upstream=True, obs=o, shape=sh, limit=lim_, inchain=how) for o in ('dump_to_path', 'dump_to_zip', 'stream', 'checkpoint', 'finalizer')
+               for how in ('islice', 'break', 'return') for (sh, lim_) in (([3, 0, 2], 1), ([5, 4], 2), ([150, 3], 120))]
     uitems += [dict(upstream=True, obs=o, shape=[2, 1, 3], select=k) for o in ('dump_to_path', 'dump_to_zip', 'stream', 'checkpoint', 'finalizer') for k in (0, 1, -1)]
     for it, out in zip(uitems, pmap(upstream_observer_case, uitems, chunksize=2)):
         if '__harness_error__' in out:
